@@ -797,3 +797,198 @@ Section RunEquiv.
     rewrite <- (sub_kept _ _ _ _ _ _ _ Hm Hc x P) at 1. now apply K2.
   Qed.
 End RunEquiv.
+
+(* ------------------------------------------------------------------ schedules of the fused phase *)
+Lemma merge_app {A} (l1 l2 : list A) : merge l1 l2 (l1 ++ l2).
+Proof. induction l1 as [|x l1 IH]; cbn [app]; [apply merge_nil_l|constructor; exact IH]. Qed.
+Lemma merge_map {A B} (f : A -> B) a b c : merge a b c -> merge (map f a) (map f b) (map f c).
+Proof. induction 1; cbn [map]; constructor; assumption. Qed.
+Lemma filter_merge {A} (p : A -> bool) l : merge (filter p l) (filter (fun x => negb (p x)) l) l.
+Proof.
+  induction l as [|x l IH]; cbn [filter]; [constructor|].
+  destruct (p x); cbn [negb]; constructor; exact IH.
+Qed.
+
+Lemma Forall2_in_r {A B} (P : A -> B -> Prop) l l' y :
+  Forall2 P l l' -> In y l' -> exists x, In x l /\ P x y.
+Proof.
+  induction 1 as [|x0 y0 l l' H0 _ IH]; intros Hy; [destruct Hy|].
+  destruct Hy as [<-|Hy]; [exists x0; split; [now left|exact H0]|].
+  destruct (IH Hy) as (x & Hx & Hp). exists x. split; [now right|exact Hp].
+Qed.
+
+(* the fused phase, repaired shape: first method, then the renamed second method *)
+Lemma fuse_stmts_lower pred clash a b l :
+  fuse_stmts true true true true pred clash a b = FOk l ->
+  exists m b', subst_of true true pred clash a b = Some m /\ l = a ++ b' /\
+               Forall2 (fun st st' => lower st' = lower (rename_stmt true true (sub m) st)) b b' /\
+               (forall x, In x (map fid b') -> ~ In x (map fid a)).
+Proof.
+  intros H. destruct (fuse_stmts_spec _ _ _ _ _ _ _ _ _ H) as (m & idm & b' & Hm & -> & F2 & _ & _ & _ & D).
+  exists m, b'. repeat split; auto. clear -F2.
+  induction F2 as [|st st' b b' (_ & _ & _ & Hc & Hk) _ IH]; constructor; [|exact IH].
+  unfold lower. now rewrite Hc, Hk.
+Qed.
+
+(* any list of statements of the fused phase (a schedule) is an interleaving of a schedule of the
+   first method and of (the renamed statements of) a schedule of the second method *)
+Lemma sched_split (m : smap) a b b' Lf :
+  Forall2 (fun st st' => lower st' = lower (rename_stmt true true (sub m) st)) b b' ->
+  (forall x, In x (map fid b') -> ~ In x (map fid a)) ->
+  incl Lf (a ++ b') ->
+  exists la lb, incl la a /\ incl lb b /\
+                la = filter (fun st => mem (fid st) (map fid a)) Lf /\
+                merge (map lower la) (map (fun st => lower (rename_stmt true true (sub m) st)) lb) (map lower Lf).
+Proof.
+  intros F2 D I. set (p := fun st => mem (fid st) (map fid a)).
+  assert (Ia : incl (filter p Lf) a).
+  { intros st Hs. apply filter_In in Hs. destruct Hs as [Hl Hp]. unfold p in Hp. apply mem_In in Hp.
+    specialize (I st Hl). rewrite in_app_iff in I. destruct I as [I|I]; [exact I|].
+    exfalso. apply (D (fid st)); [now apply in_map|exact Hp]. }
+  assert (Ib : incl (filter (fun x => negb (p x)) Lf) b').
+  { intros st Hs. apply filter_In in Hs. destruct Hs as [Hl Hp]. unfold p in Hp.
+    destruct (mem (fid st) (map fid a)) eqn:E; [discriminate|]. apply mem_false in E.
+    specialize (I st Hl). rewrite in_app_iff in I. destruct I as [I|I]; [|exact I].
+    exfalso. apply E. now apply in_map. }
+  assert (Hsrc : exists lb, incl lb b /\
+            map (fun st => lower (rename_stmt true true (sub m) st)) lb = map lower (filter (fun x => negb (p x)) Lf)).
+  { revert Ib. generalize (filter (fun x => negb (p x)) Lf) as lb'.
+    induction lb' as [|st' lb' IH]; intros Ib; [exists []; split; [intros x []|reflexivity]|].
+    destruct IH as (lb & Il & E); [intros x Hx; apply Ib; now right|].
+    destruct (Forall2_in_r _ _ _ st' F2 (Ib st' (or_introl eq_refl))) as (st & Hs & Hp).
+    exists (st :: lb). split; [intros x [<-|Hx]; auto|]. cbn [map]. now rewrite E, Hp. }
+  destruct Hsrc as (lb & Il & E).
+  exists (filter p Lf), lb. repeat split; auto. rewrite E. apply merge_map. apply filter_merge.
+Qed.
+
+(* ------------------------------------------------------------------ the property statements, by shape *)
+(* the predicate the property demands: the caller's, by default persistent names are kept *)
+Definition want (is_state : var -> bool) (p : option (var -> bool)) : var -> bool :=
+  match p with Some f => f | None => fun x => negb (is_state x) end.
+
+(* persistent variables, time and step size are not renamed; a name is renamed iff both methods
+   use it and the (effective) predicate asks *)
+Definition stmt_policy (is_state : var -> bool) (pr : bool) : Prop :=
+  forall p clash a b m,
+    clash_enum (idents true true a) (idents true true b) clash ->
+    subst_of true true (eff_pred is_state pr p) clash a b = Some m ->
+    forall x, sub m x <> x <-> (In x (idents true true a) /\ In x (idents true true b)) /\ want is_state p x = true.
+
+(* names the two parts of the fused phase share are names the predicate keeps *)
+Definition stmt_disjoint (is_state : var -> bool) (pr gd : bool) : Prop :=
+  forall p lv clash a b l,
+    clash_enum (idents true true a) (idents true true b) clash ->
+    fuse_stmts true true gd lv (eff_pred is_state pr p) clash a b = FOk l ->
+    exists b', l = a ++ b' /\
+      forall y, In y (idents true true a) -> In y (idents true true b') ->
+                In y (idents true true b) /\ want is_state p y = false.
+
+(* the hypotheses of run equivalence *)
+Record run_hyps (is_state : var -> bool) (p : option (var -> bool)) (a b : list fstmt) (m : smap) (sg : store)
+  : Prop := {
+  h_loops_a : loops_used a;
+  h_loops_b : loops_used b;
+  (* function symbols of the second method are neither variable names nor generated names *)
+  h_fun : forall st f, In st b -> In f (stmt_funsyms st) ->
+                       ~ In f (idents true true a ++ idents true true b) /\ ~ In f (map snd m);
+  (* neither method writes a kept name the other one uses *)
+  h_nsw : forall x, In x (idents true true a) -> In x (idents true true b) -> want is_state p x = false ->
+                    ~ wl a x /\ ~ wl b x;
+  (* the step starts from a store holding only kept names, and none of the generated names *)
+  h_store : forall x, want is_state p x = true -> sg x = None;
+  h_store_new : forall c n, In (c, n) m -> sg n = None }.
+
+(* executing the fused phase (in program order) gives each method the results of running it alone *)
+Definition stmt_run_equiv (is_state : var -> bool) (pr gd lv : bool) : Prop :=
+  forall F g p clash a b l m sg sA eA sB eB,
+    clash_enum (idents true true a) (idents true true b) clash ->
+    fuse_stmts true true gd lv (eff_pred is_state pr p) clash a b = FOk l ->
+    subst_of true true (eff_pred is_state pr p) clash a b = Some m ->
+    run_hyps is_state p a b m sg ->
+    run_list F g (map lower a) (RRun sg []) = RRun sA eA ->
+    run_list F g (map lower b) (RRun sg []) = RRun sB eB ->
+    exists sF eF,
+      run_list F g (map lower l) (RRun sg []) = RRun sF eF /\
+      (forall x, In x (idents true true a) -> sF x = sA x) /\
+      (forall x, In x (idents true true b) -> want is_state p x = false -> sF x = sB x) /\
+      merge eA eB eF.
+
+Lemma eff_pred_true is_state p : eff_pred is_state true p = want is_state p.
+Proof. destruct p; reflexivity. Qed.
+
+Theorem policy_holds is_state : stmt_policy is_state true.
+Proof.
+  intros p clash a b m Hc Hm x. rewrite eff_pred_true in Hm.
+  exact (sub_renamed _ _ _ _ _ _ _ Hm Hc x).
+Qed.
+
+Theorem disjoint_holds is_state : stmt_disjoint is_state true true.
+Proof.
+  intros p lv clash a b l Hc H. rewrite eff_pred_true in H.
+  exact (temporaries_disjoint _ _ _ _ _ _ _ _ H Hc).
+Qed.
+
+(* all interleavings of all schedules, repaired shape *)
+Theorem run_equiv_all is_state :
+  forall F g p clash a b l m sg,
+    clash_enum (idents true true a) (idents true true b) clash ->
+    fuse_stmts true true true true (eff_pred is_state true p) clash a b = FOk l ->
+    subst_of true true (eff_pred is_state true p) clash a b = Some m ->
+    run_hyps is_state p a b m sg ->
+    forall Lf, incl Lf l ->
+    exists la lb,
+      incl la a /\ incl lb b /\ la = filter (fun st => mem (fid st) (map fid a)) Lf /\
+      forall sA eA sB eB,
+        run_list F g (map lower la) (RRun sg []) = RRun sA eA ->
+        run_list F g (map lower lb) (RRun sg []) = RRun sB eB ->
+        exists sF eF,
+          run_list F g (map lower Lf) (RRun sg []) = RRun sF eF /\
+          (forall x, In x (idents true true a) -> sF x = sA x) /\
+          (forall x, In x (idents true true b) -> sF (sub m x) = sB x) /\
+          (forall x, In x (idents true true b) -> want is_state p x = false -> sF x = sB x) /\
+          merge eA eB eF.
+Proof.
+  intros F g p clash a b l m sg Hc H Hm Hy Lf IL. rewrite eff_pred_true in H, Hm.
+  destruct (fuse_stmts_lower _ _ _ _ _ H) as (m' & b' & Hm' & -> & F2 & D).
+  rewrite Hm in Hm'. injection Hm' as <-.
+  destruct (sched_split m a b b' Lf F2 D IL) as (la & lb & Ia & Ib & Ela & M).
+  exists la, lb. repeat split; auto. intros sA eA sB eB RA RB.
+  destruct Hy as [La Lb Hf Hn Hs Hsn].
+  assert (Hfun : forall st f, In st b -> In f (stmt_funsyms st) -> ~ In f (map fst m) /\ ~ In f (map snd m)).
+  { intros st f Hst Hf0. destruct (Hf st f Hst Hf0) as [H1 H2]. split; [|exact H2].
+    intros Hin. apply (subst_dom _ _ _ _ _ _ _ Hm Hc) in Hin. apply H1. rewrite in_app_iff. tauto. }
+  assert (Hsg : forall c n, In (c, n) m -> sg c = None /\ sg n = None).
+  { intros c n Hin. split; [|eapply Hsn; exact Hin]. apply Hs.
+    assert (Hd : In c (map fst m)) by (apply in_map_iff; exists (c, n); auto).
+    apply (subst_dom _ _ _ _ _ _ _ Hm Hc) in Hd. tauto. }
+  destruct (run_equiv F g _ clash a b m Hm Hc La Lb Hfun Hn sg Hsg la lb (map lower Lf) sA eA sB eB Ia Ib M RA RB)
+    as (sF & eF & RF & K1 & K2 & K3).
+  exists sF, eF. repeat split; auto. intros x Hx P.
+  rewrite <- (sub_kept _ _ _ _ _ _ _ Hm Hc x P) at 1. now apply K2.
+Qed.
+
+Theorem run_equiv_holds is_state : stmt_run_equiv is_state true true true.
+Proof.
+  intros F g p clash a b l m sg sA eA sB eB Hc H Hm Hy RA RB.
+  rewrite eff_pred_true in H, Hm.
+  destruct (fuse_stmts_lower _ _ _ _ _ H) as (m' & b' & Hm' & El & F2 & D).
+  rewrite Hm in Hm'. injection Hm' as <-.
+  destruct Hy as [La Lb Hf Hn Hs Hsn].
+  assert (Hfun : forall st f, In st b -> In f (stmt_funsyms st) -> ~ In f (map fst m) /\ ~ In f (map snd m)).
+  { intros st f Hst Hf0. destruct (Hf st f Hst Hf0) as [H1 H2]. split; [|exact H2].
+    intros Hin. apply (subst_dom _ _ _ _ _ _ _ Hm Hc) in Hin. apply H1. rewrite in_app_iff. tauto. }
+  assert (Hsg : forall c n, In (c, n) m -> sg c = None /\ sg n = None).
+  { intros c n Hin. split; [|eapply Hsn; exact Hin]. apply Hs.
+    assert (Hd : In c (map fst m)) by (apply in_map_iff; exists (c, n); auto).
+    apply (subst_dom _ _ _ _ _ _ _ Hm Hc) in Hd. tauto. }
+  (* in program order the two schedules are the two methods themselves *)
+  assert (M : merge (map lower a) (map (fun st => lower (rename_stmt true true (sub m) st)) b) (map lower l)).
+  { subst l. rewrite map_app.
+    assert (E : map lower b' = map (fun st => lower (rename_stmt true true (sub m) st)) b).
+    { clear -F2. induction F2 as [|st st' b b' Hp _ IH]; [reflexivity|]. cbn [map]. now rewrite Hp, IH. }
+    rewrite E. apply merge_app. }
+  destruct (run_equiv F g _ clash a b m Hm Hc La Lb Hfun Hn sg Hsg a b (map lower l) sA eA sB eB
+                      (incl_refl _) (incl_refl _) M RA RB) as (sF & eF & RF & K1 & K2 & K3).
+  exists sF, eF. repeat split; auto. intros x Hx P.
+  rewrite <- (sub_kept _ _ _ _ _ _ _ Hm Hc x P) at 1. now apply K2.
+Qed.
